@@ -22,10 +22,16 @@ S2 == <<<<65535, 65534>>, <<65535, 65535>>, <<0, 0>>, <<0, 1>>>>          \* wra
 S3 == <<<<0, 65535>>, <<1, 0>>, <<1, 1>>, <<32768, 65534>>>>              \* limb carry; distance 2^31 - 1
 SS1 == {S1}
 SS2 == {S2}
+SS3 == {S3}
 SS12 == {S1, S2}
 SS123 == {S1, S2, S3}
 
 AllKinds == {"axfr", "ixfr", "axfrstyle", "uptodate", "behind", "usetcp"}
+KindsIxfr == {"ixfr"}
+KindsOther == {"axfr", "axfrstyle", "uptodate", "behind", "usetcp"}
 AllFaults == {"none", "drop", "dup", "swap", "trunc", "serial", "owner", "type", "surplus", "rcode", "question"}
+NoFaults == {"none"}
+MsgFaultKinds == {"none", "rcode", "question"}
+ReorderFaultKinds == {"none", "drop", "dup", "swap"}
 StreamFaultKinds == {"none", "drop", "dup", "swap", "trunc", "serial", "owner", "type", "surplus"}
 =============================================================================
